@@ -23,6 +23,7 @@ func init() {
 		Assumptions:  []string{"read-only accessor added by the generated overlay (build tag verif); /repo is not modified", "bounded input set and budget sweep as stated"},
 		Run:          runC11,
 		NeedsOverlay: "full",
+		Finalize:     c11Finalize,
 	})
 }
 
